@@ -65,7 +65,17 @@ pub fn run_chaos(s: &Streams) -> CaseOut {
     if dch.chance(1, 2) {
         use crate::model::*;
         let at = dch.upto(built.prog.stmts.len() + 1);
-        let (kind, stmts): (&'static str, Vec<Stmt>) = match dch.upto(5) {
+        let (kind, stmts): (&'static str, Vec<Stmt>) = match dch.upto(8) {
+            // both operands of a binary operator are evaluated, whatever the other one's value
+            5 => ("division by zero in the right operand of `0 & ...`", vec![Stmt::Let("hz".into(), Expr::bin(BinOp::And, Expr::lit(0), Expr::Group(Box::new(Expr::bin(BinOp::Div, Expr::lit(7), Expr::lit(0))))))]),
+            6 => ("remainder by zero in the right operand of `0 * ...`", vec![Stmt::Let("hz".into(), Expr::bin(BinOp::Mul, Expr::lit(0), Expr::Group(Box::new(Expr::bin(BinOp::Rem, Expr::lit(5), Expr::lit(0))))))]),
+            7 => (
+                "variable never assigned on the executed path, in the right operand of `0 & ...`",
+                vec![
+                    Stmt::While(Expr::lit(0), vec![Stmt::Let("nv".into(), Expr::lit(1))]),
+                    Stmt::Let("hz".into(), Expr::bin(BinOp::And, Expr::lit(0), Expr::un(UnOp::BitNot, Expr::var("nv")))),
+                ],
+            ),
             0 => ("division by zero", vec![Stmt::Let("hz".into(), Expr::bin(BinOp::Div, Expr::lit(7), Expr::lit(0)))]),
             1 => ("remainder by zero", vec![Stmt::Let("hz".into(), Expr::bin(BinOp::Rem, Expr::bin(BinOp::Add, Expr::lit(3), Expr::lit(4)), Expr::lit(0)))]),
             2 => ("function that is not implemented", vec![Stmt::Let("hz".into(), Expr::SignExt(Box::new(Expr::lit(4)), Box::new(Expr::lit(9))))]),
@@ -282,7 +292,7 @@ impl Property for C10 {
         "C10"
     }
     fn rule(&self) -> &'static str {
-        "profile `chaos`: everything the other profiles avoid - unguarded / and %, random with bounds {-1,0,1,2,...}, signExt, variables bound only on paths that do not execute (while(0), loops with bound <= 0), counter rebinding incl. to i64::MAX, 64-bit boundary arithmetic and shift counts, widths 1..64, wild defaults, shared input/expected columns, X and C anywhere, virtual signals using random, drivers answering Z/X and returning errors at any call, seeds {0,1,MAX,random}; each case enables a random subset of the hazard sources; kept only if the crate accepts it at load time; one case in six is a deliberate misfit between program and signal list (a C entry in an expected-only column, a C column that is an output, edits of the list as in C11) - refused by a correct binding and then discarded, run like any other accepted test if it is accepted all the same. Run through try_iter, next() to the first error item or the end (+1 call), vars() after each row, and try_iter_static. Oracle: (1) no panic anywhere; (2) in half of the cases a statement that cannot be evaluated whatever the values are - division / remainder by literal zero, signExt, a variable whose only `let` sits in a while(0) body or in a loop with bound 0 - is planted at a random top-level position, where it is executed unconditionally: a run that reaches the end of iteration must then contain an error item. Nothing is asserted about values. The reference interpreter (replaying the crate's own draw log) only classifies which hazards were reached, for the histogram. Non-trivial: a hazardous evaluation was reached or planted, or a width >= 63 is used, or >= 3 rows ran; distinct by source + signals + driver + seed. Thorough adds libFuzzer target run_structured on the same decoder."
+        "profile `chaos`: everything the other profiles avoid - unguarded / and %, random with bounds {-1,0,1,2,...}, signExt, variables bound only on paths that do not execute (while(0), loops with bound <= 0), counter rebinding incl. to i64::MAX, 64-bit boundary arithmetic and shift counts, widths 1..64, wild defaults, shared input/expected columns, X and C anywhere, virtual signals using random, drivers answering Z/X and returning errors at any call, seeds {0,1,MAX,random}; each case enables a random subset of the hazard sources; kept only if the crate accepts it at load time; one case in six is a deliberate misfit between program and signal list (a C entry in an expected-only column, a C column that is an output, edits of the list as in C11) - refused by a correct binding and then discarded, run like any other accepted test if it is accepted all the same. Run through try_iter, next() to the first error item or the end (+1 call), vars() after each row, and try_iter_static. Oracle: (1) no panic anywhere; (2) in half of the cases a statement that cannot be evaluated whatever the values are - division / remainder by literal zero, signExt, a variable whose only `let` sits in a while(0) body or in a loop with bound 0, each also as the right operand of `0 & ...` / `0 * ...` (only ite is lazy) - is planted at a random top-level position, where it is executed unconditionally: a run that reaches the end of iteration must then contain an error item. Nothing is asserted about values. The reference interpreter (replaying the crate's own draw log) only classifies which hazards were reached, for the histogram. Non-trivial: a hazardous evaluation was reached or planted, or a width >= 63 is used, or >= 3 rows ran; distinct by source + signals + driver + seed. Thorough adds libFuzzer target run_structured on the same decoder."
     }
     fn cases(&self, tier: Tier) -> u64 {
         match tier {
